@@ -29,6 +29,7 @@ RULE = ('histories over 2-3 shared leaves: build ops (re-using any earlier resul
 EXHAUSTIVE = {'quick': False, 'thorough': False}
 ASSUMPTIONS = ['float64 programs']
 TRUSTED_BASE = ['harness/tprog.py, harness/gen_dag.py', 'harness/props/c03.py: shared_case / hist_oracle (histories through every op of the catalogue)', 'harness/props/c04.py: TreeModel (which leaves a reset of a module tree must reach: walk over attributes)']
+TRUSTED_BASE = TRUSTED_BASE + ['harness/engine_logic.py (reading of the conditions, context transitions, loop skeletons and class method surfaces of tensor.py / nn/modules.py, Generated/EngineLogic.lean; the Boolean translation is validated on every run by the `logic` family of C07)']
 tprog.RESET_ROUTES = True
 ALLOW = ['add', 'mul', 'neg', 'sum', 'clone', 'self2', 'reshape', 'slice', 'unbind', 'stack', 'pow', 'mean',
          'concat', 'matmul', 'transpose', 'movedim', 'flatten', 'squeeze', 'unsqueeze',       # (the rest of the generator's tensor-op catalogue)
